@@ -29,7 +29,7 @@ func init() {
 		Prop:    "C16",
 		Harness: []string{"c01_chain.go", "c16_keyid.go"},
 		Entries: []EntrySpec{
-			{Pkg: "biscuit", Func: "VerifC16Travels", Quick: p("blocks", 1), Thorough: p("blocks", 2), Covers: []string{"done"}},
+			{Pkg: "biscuit", Func: "VerifC16Travels", Quick: p("blocks", 1), Thorough: p("blocks", 4), Covers: []string{"done"}},
 			{Pkg: "biscuit", Func: "VerifC16Lookup", Quick: p(), Thorough: p(), Covers: []string{"looked-up", "no-key", "key-found"}},
 		},
 		Assumptions: append([]string{"key maps of 0..2 entries under symbolic 32-bit identifiers, each the right or a wrong key, optional default"}, chainAssume...),
